@@ -21,6 +21,6 @@ def run(tier, seed):
                  ["commonmark"], "all pairs over 30 labels with case/whitespace/special-casing variants", "label pairs")
     rep.explanation = ("Mixed, mostly bounded: seeding, first-wins/duplicate records, inline-vs-reference form and label matching are relational contracts on the real parse/render over the listed universes. "
                        "Case folding is additionally checked exhaustively over all Unicode scalar values when the casefold module ran (a complete, loop-free enumeration).")
-    rep.trusted_base = STD_TRUST
-    rep.assumptions = ["lifting single-character case folding to strings (composition step)"]
+    rep.trusted_base += STD_TRUST
+    rep.assumptions += ["lifting single-character case folding to strings (composition step)"]
     return rep
